@@ -2,10 +2,11 @@
 # Create (idempotently) the overlay venv /verif/.venv = /venv's site-packages + crosshair-tool, z3-solver, jsonschema
 # from the offline wheelhouse. Safe to call concurrently (lock) and from every check.
 set -e
-V=/verif/.venv
+HERE="$(cd "$(dirname "$0")/.." && pwd)"
+V="${FPVERIF_VENV:-$HERE/.venv}"
 STAMP=$V/.ok
 if [ -f "$STAMP" ] && "$V/bin/python" -c "import z3, crosshair, highspy, networkx" 2>/dev/null; then exit 0; fi
-exec 9>/verif/.venv.lock
+exec 9>"$V.lock"
 flock 9
 if [ -f "$STAMP" ] && "$V/bin/python" -c "import z3, crosshair, highspy, networkx" 2>/dev/null; then exit 0; fi
 rm -rf "$V"
